@@ -63,6 +63,12 @@ func (mc modelCheck) register() {
 			}
 			cl := append(append([]string{}, commonClauses...), mc.clauses...)
 			cl = append(cl, CMissedCycleInvoke)
+			for _, op := range c.Ops {
+				if op.K == OpDecorate && op.F != nil && op.F.Reenter != nil {
+					st.Count("cases_with_reentrant_decorator", 1)
+					return failFrom(v.First(CEscapedPanic, CExecTwice, CNested))
+				}
+			}
 			if mc.valid {
 				// every registration of these histories is well-formed: the
 				// only legitimate rejections are duplicates and cycles
@@ -98,9 +104,16 @@ func init() {
 			// container. No decorators there: while a decorator builds its
 			// arguments dig skips it by design, so a nested consumer would
 			// legitimately see the undecorated value.
-			if rapid.IntRange(0, 9).Draw(t, "reentrant-case") >= 8 {
+			switch r := rapid.IntRange(0, 19).Draw(t, "reentrant-case"); {
+			case r >= 16:
 				k.NoDecorators = true
 				k.PReenter = 40
+			case r >= 14:
+				// decorator bodies that call Invoke: what the nested
+				// consumers see is not claimed (the running decorator is
+				// skipped), only that nothing runs twice or re-enters
+				k.PReenterDeco = 50
+				k.WDecorate = 6
 			}
 		},
 		clauses: []string{CExecTwice, CNested, CBadExec, CProvSingle, CGroupMultiset},
@@ -197,13 +210,14 @@ func init() {
 	// C09 — key identity and duplicates
 	modelCheck{
 		id:   "C09",
-		rule: "tiny universes (2 concrete types + 2 interfaces, names {a,b}, groups {a,b}) so that collisions are the norm, names/groups via option and via tag at any nesting, As lists, several scopes; non-trivial = at least one duplicate-key attempt and at least one As, with an Invoke that succeeded and one that failed",
+		rule: "tiny universes (2 concrete types + 2 interfaces, names {a, b, a+blank}, groups {a, b, a+blank, blank+a}) so that collisions are the norm, names/groups via option and via tag at any nesting, As lists, several scopes; non-trivial = at least one duplicate-key attempt and at least one As, with an Invoke that succeeded and one that failed",
 		knobs: func() Knobs {
 			k := DefaultKnobs()
 			k.Types = []string{"T0", "T2", "L0"}
 			k.Ifaces = []string{"I1", "I2", "I01"}
-			k.Names = []string{"a", "b"}
-			k.Groups = []string{"a", "b"}
+			// names are exact strings: "a" and "a " (trailing blank) are different keys
+			k.Names = []string{"a", "b", "a "}
+			k.Groups = []string{"a", "b", "a ", " a"}
 			k.PFresh, k.PAs, k.PNamed, k.PGroupRes, k.PGroupParam = 55, 45, 45, 25, 25
 			k.PInvokeAll, k.PHole = 75, 80
 			k.MaxScopes = 4
@@ -213,7 +227,7 @@ func init() {
 			// rejected as cycles (in the target scope or below it)
 			k.WCycleCloser, k.WShadowCycle = 2, 1
 			k.PFocus = 45
-			k.PEmptyGroup = 3
+			k.PEmptyGroup = 5
 			return k
 		},
 		clauses: []string{CVerdictProvide, CProvSingle, CFromNowhere, CVerdictInvoke, CGroupForeign, CGroupMultiset, CZeroAvailable},
